@@ -21,19 +21,22 @@ Accepting(c, o) == c.pend.t # "none" /\ o.pend.t = "none"
 
 \* the Steps possible from run state x
 StepAcc(x) ==
-  { LET n2 == x.n + Len(o.rd) + Len(o.wr) + Len(o.pio)
+  UNION {
+    LET n2 == x.n + Len(o.rd) + Len(o.wr) + Len(o.pio)
         fires == x.sched.at > 0 /\ x.n < x.sched.at /\ x.sched.at <= n2
-        \* a request stored while the Step that accepts another request is in progress is
-        \* overwritten when that Step retires its own request (modelled corner, DESIGN C08)
-        c2 == IF fires /\ ~Accepting(x.c, o) THEN [o EXCEPT !.pend = x.sched.pend] ELSE o
+        \* A request stored while the Step that accepts another request is in progress: today it is
+        \* overwritten when that Step retires its own request; no listed property speaks about it, so an
+        \* implementation that keeps it is allowed as well (both outcomes).
+        kept == [o EXCEPT !.pend = x.sched.pend]
+        c2s == IF ~fires THEN {o} ELSE IF Accepting(x.c, o) THEN {o, kept} ELSE {kept}
         \* a callback may assign a new BreakPoints map at its at-th bus access: Run tests the map
         \* that is current after the Step
         swaps == x.bpswap.at > 0 /\ x.n < x.bpswap.at /\ x.bpswap.at <= n2
-    IN [c |-> c2, pio |-> x.pio \o o.pio, n |-> n2,
-        rs |-> x.rs + o.rslack + (IF o.ralt THEN 1 ELSE 0),
-        steps |-> x.steps + 1, sched |-> IF fires THEN NoSched ELSE x.sched,
-        bp |-> IF swaps THEN x.bpswap.set ELSE x.bp,
-        bpswap |-> IF swaps THEN [at |-> 0] ELSE x.bpswap]
+    IN { [c |-> c2, pio |-> x.pio \o o.pio, n |-> n2,
+          rs |-> x.rs + o.rslack + (IF o.ralt THEN 1 ELSE 0),
+          steps |-> x.steps + 1, sched |-> IF fires THEN NoSched ELSE x.sched,
+          bp |-> IF swaps THEN x.bpswap.set ELSE x.bp,
+          bpswap |-> IF swaps THEN [at |-> 0] ELSE x.bpswap] : c2 \in c2s }
     : o \in StepSet(x.c) }
 
 \* (bp is the set given at the call; it is kept in the run state, where a callback may replace it)
